@@ -15,12 +15,18 @@ RULE = ("KroneckerFactoredLattice layers built in float64 (and ~10% of all cases
         "none/min/max/both, clip_inputs on/off; kernels random / negative / far (+-64) / ties / sorted / zeros / "
         "perfect d-th powers; scales random / with exact zeros / one-signed / large / tiny; constraint "
         "histories from {kernel.constraint, scale.constraint, finalize_constraints} in both orders and "
-        "repeated, optionally with a re-assigned scale (signs flipped or zeroed) between two applications; "
+        "repeated, optionally with a re-assigned scale (signs flipped or zeroed) and / or a re-assigned kernel between "
+        "two applications (classes _reassign / _kupdate), and the interleaving kernel constraint - every scale sign "
+        "flipped - scale constraint only (class _stale); "
         "each history is replayed by the Coq model and kernel, scale and outputs on a grid (vertices, cell "
         "interiors, out-of-range, lines along every monotone input) are compared in Coq; the lib functions "
         "finalize_weight_constraints / _approximately_project_monotonicity / _approximately_project_bounds / "
         "finalize_scale_constraints / evaluate_with_hypercube_interpolation are also compared directly. "
-        "Implementation-side predicate: pairwise monotonicity along monotone inputs and bounds on the grid. "
+        "Implementation-side predicate: pairwise monotonicity along monotone inputs when a kernel constraint follows the "
+        "last update of kernel and scale (C07_monotone_history), bounds on the grid when a kernel constraint follows the "
+        "last KERNEL update and a scale constraint the last SCALE update (C07_bounded_history; the scale may change sign "
+        "after the kernel constraint); no constraint application flips the sign of a scale entry; the bias is "
+        "non-trainable exactly when the layer is bounded and is never touched by a constraint application. "
         "Non-trivial = a constraint application changed kernel or scale; distinct = distinct descriptions.")
 TRUSTED = ["model: Model/KFL.v (hand-written from kronecker_factored_lattice_lib.py and "
            "kronecker_factored_lattice_layer.py); tf.pow(x, 1/dims) is an exact-root oracle in the theorems "
@@ -30,7 +36,9 @@ TRUSTED = ["model: Model/KFL.v (hand-written from kronecker_factored_lattice_lib
            ".constraint / finalize_constraints(), parameters and outputs compared in Coq; the model's "
            "constrained parameters are additionally checked against the bounds inside Coq (check_bounds)"]
 LIMITS = ["the optimizer changing scale AFTER the kernel was constrained against the old sign, with no further "
-          "constraint application, is outside the statement ('once the constraints have been applied')",
+          "KERNEL constraint application, carries the bound claim but no monotonicity claim: the output can decrease "
+          "(C07_monotone_after_stale_kernel_constraint_refuted, class _stale); the statement's 'once the constraints "
+          "have been applied' is read as 'the kernel constraint was applied after the last sign change'",
           "out-of-range inputs with clip_inputs=False are compared (model = implementation) but carry no "
           "monotonicity / bound claim",
           "float rounding (one-ulp excursions after the division by the dims-th root) is outside the model; "
@@ -185,7 +193,8 @@ def gen_descs(ctx):
     s0 = _scale(rng, sclass, units, terms, omin, omax)
     b0 = [tfimpl.dy(rng, -4, 4) for _ in range(units)] if bmode == "none" else None
     steps = [[s] for s in rng.choice(STEP_SEQS)]
-    if rng.random() < 0.3:
+    hist = rng.random()
+    if hist < 0.3:
       # the scale is re-assigned (signs flipped / zeroed / redrawn) between two applications
       how = rng.choice(["flip", "zero", "redraw"])
       if how == "flip":
@@ -195,6 +204,21 @@ def gen_descs(ctx):
       else:
         s2 = _scale(rng, rng.choice(["random", "zeros", "large"]), units, terms, omin, omax)
       steps = steps + [["A", s2]] + [[s] for s in rng.choice(STEP_SEQS)]
+    elif hist < 0.42:
+      # the interleaving of C07_stale_kernel_constraint_not_monotone: kernel constrained against the OLD signs, every
+      # scale sign flipped, then only the scale constraint. Bounds are claimed (C07_bounded_history: kb_fresh and
+      # s_fresh), monotonicity is not (km_fresh is false); the model comparison runs as for every history.
+      s2 = [[-v if v else rng.choice([0.0, 1.0, -0.5]) for v in row] for row in s0]
+      steps = ([[s] for s in rng.choice([["K"], ["F"], ["K", "S"], ["S", "K"], ["K", "K"]])] + [["A", s2]] +
+               [[s] for s in rng.choice([["S"], ["S"], ["S", "S"]])])
+    elif hist < 0.54:
+      # the KERNEL is re-assigned between two applications (optionally the scale as well, before or after it)
+      k2 = _kernel(rng, rng.choice(["random", "negative", "ties", "sorted", "power", "small"]), L, units, dims, terms)
+      mid = [["B", k2]]
+      if rng.random() < 0.4:
+        s2 = [[rng.choice([v, -v, 0.0]) for v in row] for row in s0]
+        mid = rng.choice([[["A", s2]] + mid, mid + [["A", s2]], mid + [["S"], ["A", s2]], [["A", s2], ["K"]] + mid])
+      steps = steps + mid + [[s] for s in rng.choice(STEP_SEQS)]
     iform = rng.choice(["tensor", "tensor", "list", "rows"])
     pts, lines = _points(rng, L, units, dims, ms, clip)
     d = dict(kind="layer", L=L, dims=dims, units=units, terms=terms, monos=marg, omin=omin, omax=omax,
@@ -213,7 +237,8 @@ def gen_descs(ctx):
       if kclass in ("small", "ties"):
         d["k0"] = [[[fine(rng, v) for v in r] for r in m] for m in d["k0"]]
       d["s0"] = [[f(fine(rng, v / 2.0) if abs(v) >= 0.125 else v / 2.0) for v in row] for row in d["s0"]]
-      d["steps"] = [[st[0], [[f(min(max(v / 2.0, -2.0), 2.0)) for v in row] for row in st[1]]] if st[0] == "A" else st
+      d["steps"] = [[st[0], [[f(min(max(v / 2.0, -2.0), 2.0)) for v in row] for row in st[1]]] if st[0] == "A" else
+                    ["B", _kernel(rng, rng.choice(F32_KCLASSES), L, units, dims, terms)] if st[0] == "B" else st
                     for st in d["steps"]]
       d["dtype"] = "float32"
     out.append(d)
@@ -325,18 +350,30 @@ def _eval_layer(tf, tfl, d):
   cfg = _cfg(L, ms, d["omin"], d["omax"], d["clip"])
   # split the history at the scale re-assignments
   segs, cur = [], []
+  # freshness flags of Proofs/KFLHistory.v (km_fresh / kb_fresh / s_fresh), computed over the WHOLE history
+  km = kb = sf = False
   for s in d["steps"]:
-    if s[0] == "A":
-      segs.append((cur, s[1]))
+    if s[0] in ("A", "B"):
+      segs.append((cur, s))
       cur = []
+      if s[0] == "A":
+        km = sf = False
+      else:
+        km = kb = False
     else:
       cur.append(s)
+      if s[0] in ("K", "F"):
+        km = kb = True
+      if s[0] in ("S", "F"):
+        sf = True
   segs.append((cur, None))
+  sign_fail = None
+  two_sided = d["omin"] is not None and d["omax"] is not None
   terms_coq = []
   changed = False
   seen_k = seen_s = False
   for si_, (seg, assign) in enumerate(segs):
-    kb = layer.kernel.numpy()[0].astype(np.float64).tolist()
+    kb_ = layer.kernel.numpy()[0].astype(np.float64).tolist()
     sb = layer.scale.numpy().astype(np.float64).tolist()
     for s in seg:
       if s[0] == "K":
@@ -349,7 +386,13 @@ def _eval_layer(tf, tfl, d):
         layer.finalize_constraints()
     ka = layer.kernel.numpy()[0].astype(np.float64).tolist()
     sa = layer.scale.numpy().astype(np.float64).tolist()
-    changed = changed or ka != kb or sa != sb
+    changed = changed or ka != kb_ or sa != sb
+    # C07_scale_sign_stable / C07_scale_sign_kept_two_sided on the implementation: no constraint application flips the
+    # sign of a scale entry; it is kept, or (one-sided bounds only) becomes 0
+    for ra, rb in zip(sa, sb):
+      for va, vb in zip(ra, rb):
+        if np.sign(va) != np.sign(vb) and (two_sided or va != 0.0):
+          sign_fail = "a constraint application changed the sign of a scale entry: %r -> %r" % (vb, va)
     last = si_ == len(segs) - 1
     if last:
       seen_k = any(s[0] in ("K", "F") for s in seg)
@@ -357,14 +400,26 @@ def _eval_layer(tf, tfl, d):
       y = layer(x)
       outs = _outs(y, len(pts), units)
     term = "CLayer %s %s %s %s %s %s %s %s %s %s %s %s %s %s" % (
-        cfg, cnat(units), cnat(dims), cnat(terms), cqm(si), cql(bi), _ck(kb), cqm(sb), cql(b0),
+        cfg, cnat(units), cnat(dims), cnat(terms), cqm(si), cql(bi), _ck(kb_), cqm(sb), cql(b0),
         _csteps(seg), _ck(ka), cqm(sa), _cpts(pts if last else []),
         cqm(outs) if last else "(@nil (list Q))")
     terms_coq.append("CTol %s (%s)" % (cq(F32_TOL), term) if f32 else term)
     if assign is not None:
-      layer.scale.assign(np.array(assign, dtype=dt))
+      if assign[0] == "A":
+        layer.scale.assign(np.array(assign[1], dtype=dt))
+      else:
+        layer.kernel.assign(np.array(assign[1], dtype=dt)[None])
   # property predicate on the implementation's outputs
   fail = None
+  # the fixed-bias hypothesis of C07_bounded / C07_bounded_history on the implementation: the bias of a bounded layer is
+  # not trainable (no optimizer moves it) and no constraint application touches it (C07_bias_untouched_by_constraints)
+  bias_fail = None
+  bounded = d["omin"] is not None or d["omax"] is not None
+  if bool(layer.bias.trainable) == bounded:
+    bias_fail = "the bias of a layer %s output bounds is %strainable" % (
+        "with" if bounded else "without", "" if layer.bias.trainable else "not ")
+  elif layer.bias.numpy().astype(np.float64).tolist() != b0:
+    bias_fail = "the constraint applications changed the bias: %r -> %r" % (b0, layer.bias.numpy().tolist())
   # auxiliary (C07_idempotent / C07_order_irrelevant on the implementation): once both constraints
   # have been applied, applying them again, or having applied them in the other order, does not
   # change the function
@@ -383,7 +438,7 @@ def _eval_layer(tf, tfl, d):
           aux_fail = "re-applying the constraints changed the output of unit %d at %r: %r -> %r" % (u, p[u], o1[u], o2[u])
     names = [s[0] for s in last_seg]
     if names in (["K", "S"], ["S", "K"]):
-      layer.kernel.assign(np.array(kb, dtype=dt)[None])
+      layer.kernel.assign(np.array(kb_, dtype=dt)[None])
       layer.scale.assign(np.array(sb, dtype=dt))
       for nm in reversed(names):
         v = layer.kernel if nm == "K" else layer.scale
@@ -399,7 +454,10 @@ def _eval_layer(tf, tfl, d):
     return rel * max([1.0] + [abs(v) for v in vs])
   def inr(p):
     return all(0.0 <= c <= L - 1 for r in p for c in r)
-  if seen_k and ms:
+  # claims per C07_monotone_history / C07_bounded_history: monotone when a kernel constraint follows the last update of
+  # kernel and scale; bounded when a kernel constraint follows the last KERNEL update and a scale constraint the last
+  # SCALE update (the scale may change sign after the kernel constraint)
+  if km and ms:
     for ln in d["lines"]:
       if not ms[ln["dim"]]:
         continue
@@ -409,7 +467,7 @@ def _eval_layer(tf, tfl, d):
           if outs[b][u] < outs[a][u] - tol(outs[a][u], outs[b][u]):
             fail = ("output of unit %d decreases along monotone input %d: f(%r)=%r > f(%r)=%r" % (
                 u, ln["dim"], pts[a][u], outs[a][u], pts[b][u], outs[b][u]))
-  if seen_k and seen_s and (d["omin"] is not None or d["omax"] is not None):
+  if kb and sf and bounded:
     for p, o in zip(pts, outs):
       if not (d["clip"] or inr(p)):
         continue
@@ -418,12 +476,13 @@ def _eval_layer(tf, tfl, d):
           fail = "output %r of unit %d at %r below output_min %r" % (o[u], u, p[u], d["omin"])
         if d["omax"] is not None and o[u] > d["omax"] + tol(d["omax"]):
           fail = "output %r of unit %d at %r above output_max %r" % (o[u], u, p[u], d["omax"])
-  fail = fail or aux_fail
+  fail = fail or sign_fail or bias_fail or aux_fail
   mclass = "mNone" if ms is None else ("mEmpty" if not ms else
                                        ("m0" if not any(ms) else ("mall" if all(ms) else "msome")))
   bclass = ("min" if d["omin"] is not None else "") + ("max" if d["omax"] is not None else "") or "nob"
   names = "".join(s[0] for s in d["steps"])
-  hclass = "reassign" if "A" in names else (names if len(names) <= 2 else "repeat")
+  hclass = ("kupdate" if "B" in names else ("stale" if kb and sf and not km else "reassign")) if ("A" in names or "B" in names) \
+      else (names if len(names) <= 2 else "repeat")
   klass = "layer_%s_%s_%s%s" % (mclass, bclass, hclass, "_f32" if f32 else "")
   return Case(d, coq=terms_coq, pred_fail=fail, nontrivial=changed, klass=klass,
               info={"impl_outputs": outs, "impl_kernel": ka, "impl_scale": sa})
@@ -485,3 +544,26 @@ def eval_cases(ctx, descs):
     else:
       cases.append(_eval_lib(tf, tfl, d))
   return cases
+
+
+def _probe_d75(ctx):
+  """Known finding D75 (the C07 face of D57): kernel constraint, then the scale changes sign, then only the scale
+  constraint: both constraints 'have been applied', the output is inside the bounds but decreasing."""
+  tf, tfl = tfimpl.tfl()
+  l = tfl.layers.KroneckerFactoredLattice(lattice_sizes=2, num_terms=1, monotonicities=[1], output_min=0.0,
+                                          output_max=1.0, dtype="float64")
+  x = np.array([[0.0], [1.0]])
+  l(x)
+  l.kernel.assign(np.array([[[[0.0]], [[1.0]]]]))
+  l.scale.assign([[1.0]])
+  l.kernel.assign(l.kernel.constraint(l.kernel))
+  l.scale.assign([[-1.0]])
+  l.scale.assign(l.scale.constraint(l.scale))
+  y = l(x).numpy().ravel()
+  if y[0] > y[1] + 1e-9:
+    return ("kernel.constraint, scale sign flip, scale.constraint on KroneckerFactoredLattice(2, monotonicities=[1], "
+            "bounds [0,1]): f(0)=%g > f(1)=%g" % (y[0], y[1]))
+  return None
+
+
+KNOWN_PROBES = {"stale_kernel_constraint_after_scale_sign_change": _probe_d75}
